@@ -42,8 +42,16 @@ def hc_spec(draw, force=None):
     n = draw(st.sampled_from([0, 0, 1, 1, 1, 2, 3]))
     spec['breaches'] = [{'k': draw(st.sampled_from(BREACHES)), 'sel': draw(st.integers(0, 100)),
                          'text': draw(st.sampled_from(BAD_NAMES))} for _ in range(n)]
+    if draw(st.integers(0, 3)) == 0:
+        # the same DLISFile is written twice, once on each side of the mode boundary (only used for writes made outside)
+        spec['again'] = draw(st.sampled_from(['out-in', 'in-out']))
     if force is not None:
         what, arg = force
+        if what == 'again':
+            spec['again'] = arg
+            spec['breaches'] = [{'k': draw(st.sampled_from(sorted(WRITE_TIME))), 'sel': draw(st.integers(0, 100)),
+                                 'text': 'x'}] if draw(st.integers(0, 3)) else []
+            return spec
         if what == 'clean':
             spec['breaches'] = []
         elif what == 'late':
@@ -61,7 +69,8 @@ def hc_spec(draw, force=None):
     return spec
 
 
-STRATA = [('b', k) for k in BREACHES] + [('late', k) for k in LATE] + [('text', t) for t in BAD_NAMES] + [('clean', None)]
+WRITE_TIME = {'signed', 'unframed', 'two-frames', 'nonuniform'}      # breaches that only write() can detect
+STRATA = [('again', 'out-in'), ('again', 'in-out')] + [('b', k) for k in BREACHES] + [('late', k) for k in LATE] + [('text', t) for t in BAD_NAMES] + [('clean', None)]
 
 
 @st.composite
@@ -85,7 +94,7 @@ def histories(draw, force=None):
     if force is not None:
         # the stratum's write comes first: directly (outside the mode) or as the body of a block (inside)
         w = {'do': 'write', 'spec': draw(hc_spec(force))}
-        if draw(st.booleans()):
+        if force[0] != 'again' and draw(st.booleans()):
             w = {'do': 'block', 'exit': 'normal', 'body': [w]}
         seq = [w] + seq[:3]
     return {'kind': 'hc-history', 'seq': seq}
@@ -131,7 +140,9 @@ def apply_breach(spec, b):
     elif k == 'two-frames':
         f = ops[frames[0]]
         j = f['attrs']['channels']['v'][-1]['$ref']
-        ops.append({'t': 'frame', 'name': 'SECOND-USER', 'attrs': {'channels': {'v': [{'$ref': j}], 'r': 'kw'}}})
+        # (half of the time under the first frame's own name: frame names need not be unique)
+        ops.append({'t': 'frame', 'name': f['name'] if sel % 2 else 'SECOND-USER',
+                    'attrs': {'channels': {'v': [{'$ref': j}], 'r': 'kw'}}})
     elif k in ('nonuniform', 'index-type'):
         fi = frames[sel % len(frames)]
         touched = spec.setdefault('_touched', [])
@@ -325,8 +336,43 @@ class C17(Property):
             if not inside and outcome == 'accepted' and not cap.records:
                 viol.append(Violation(f"no-warning-outside-mode/{late}", "accepted outside the mode without a WARNING"))
 
+        def do_again(spec, order, kinds):
+            """One DLISFile built outside the mode, written on both sides of the boundary (write-time breaches only)."""
+            labels.add('again:' + order + (':breach' if kinds else ':clean'))
+            stats['breach'] = stats['breach'] or bool(kinds)
+            try:
+                b = B.build(spec, ctx.scratch)
+            except B.BuildError:
+                return
+            kw = B.write_kwargs(spec)
+
+            def write_once(in_mode):
+                import contextlib
+                with (high_compatibility_mode() if in_mode else contextlib.nullcontext()):
+                    with dw.capture_warnings() as cap:
+                        try:
+                            b.df.write(ctx.path(), **kw)
+                            return 'written', cap.records
+                        except Exception as exc:
+                            return 'raised:' + dw.exc_site(exc)[1], cap.records
+
+            for n, in_mode in enumerate([False, True] if order == 'out-in' else [True, False]):
+                oc, recs = write_once(in_mode)
+                where = f"{order}/write{n + 1}"
+                if in_mode and kinds and oc == 'written':
+                    viol.append(Violation(f"breach-accepted-in-mode/{'+'.join(kinds)}/rewrite:{where}",
+                                          f"the file written {'before outside' if n else 'first'} is accepted inside the mode"))
+                if in_mode and not kinds and oc != 'written':
+                    viol.append(Violation(f"clean-spec-rejected-in-mode/rewrite:{where}/{oc}", oc))
+                if not in_mode and oc != 'written':
+                    viol.append(Violation(f"rejected-outside-mode/{'+'.join(kinds) or 'clean'}/rewrite:{where}/{oc}", oc))
+                if not in_mode and oc == 'written' and kinds and not recs:
+                    viol.append(Violation(f"no-warning-outside-mode/{'+'.join(kinds)}/rewrite:{where}",
+                                          "accepted outside the mode without a WARNING"))
+
         def do_write(spec, inside):
             spec = copy.deepcopy(spec)
+            again = spec.pop('again', None)
             late = spec.pop('late', None)
             if late:
                 spec.pop('breaches', None)
@@ -342,6 +388,8 @@ class C17(Property):
                     continue
             spec.pop('_touched', None)
             kinds = sorted(set(kinds))
+            if again and not inside and set(kinds) <= WRITE_TIME:
+                return do_again(spec, again, kinds)
             for k in kinds:
                 labels.add(('in:' if inside else 'out:') + k)
                 stats['breach'] = True
@@ -427,7 +475,7 @@ def summarize(seq):
     out = []
     for it in seq:
         if it['do'] == 'write':
-            out.append('w[' + ','.join(b['k'] for b in it['spec'].get('breaches', [])) + (it['spec'].get('late') or '') + ']')
+            out.append('w[' + ','.join(b['k'] for b in it['spec'].get('breaches', [])) + (it['spec'].get('late') or '') + (('|again:' + it['spec']['again']) if it['spec'].get('again') else '') + ']')
         elif it['do'] == 'block':
             out.append({'block:' + it['exit']: summarize(it['body'])})
         else:
